@@ -11,7 +11,7 @@ from sa.engine.fieldflow import AV, FieldFlow
 from sa.engine.loader import AnalysisError, FuncInfo, anorm, dotted, norm, short, walk_own
 from sa.engine.report import Finding, RuleReport
 from sa.engine.treewalk import Extractor, Product
-from sa.rules.common import DT, X, implementers
+from sa.rules.common import DT, X, implementers, transcode_chains
 from sa.schemas import docx as s_docx
 from sa.schemas import html as s_html
 from sa.schemas import odf_misc as s_odf
@@ -828,16 +828,8 @@ def rule_bytes(ctx: Ctx) -> RuleReport:
         raise AnalysisError("C02-BYTES: mhtml_extractor no longer hands the HTML part to read_html")
     for fi in m.functions.values():
         rep.unit(fi.key)
-        decoded = set()
-        for n in walk_own(fi.node):
-            if isinstance(n, ast.Assign) and len(n.targets) == 1 and isinstance(n.targets[0], ast.Name) and any(isinstance(c, ast.Call) and isinstance(c.func, ast.Attribute) and c.func.attr == "decode" and not (isinstance(c.func.value, ast.Name) and c.func.value.id in ("base64", "quopri")) for c in ast.walk(n.value)):
-                decoded.add(n.targets[0].id)
-        bad = None
-        for c in ast.walk(fi.node):
-            if isinstance(c, ast.Call) and isinstance(c.func, ast.Attribute) and c.func.attr == "encode":
-                recv = c.func.value
-                if (isinstance(recv, ast.Call) and isinstance(recv.func, ast.Attribute) and recv.func.attr == "decode") or (isinstance(recv, ast.Name) and recv.id in decoded):
-                    bad = c
+        chains = transcode_chains(fi.node)
+        bad = chains[0] if chains else None
         if bad is not None:
             rep.fail(Finding("C02-BYTES", MHTML, fi.qual, "transcoded: " + anorm(bad, fi.node), f"`{short(bad, 70)}` re-encodes the HTML part before read_html sees it; read_html decodes by the page's own <meta charset>, so a page that declares the same legacy charset in the MIME header and in its <meta> tag is decoded twice (every non-ASCII character becomes mojibake)", line=bad.lineno))
         else:
